@@ -474,6 +474,19 @@ class Program:
                     return {"str": str, "int": int, "bool": bool, "abs": abs}[cname](v_)
                 except (ValueError, TypeError):
                     raise CannotFold(f"conversion fails: {unparse(node)[:60]}")
+            if cname == "int" and (len(node.args) == 2 and not node.keywords or len(node.args) == 1 and [k.arg for k in node.keywords] == ["base"]):
+                v_ = f(node.args[0])
+                b_ = f(node.args[1]) if len(node.args) == 2 else f(node.keywords[0].value)
+                if not isinstance(v_, str) or not isinstance(b_, int):
+                    raise CannotFold(f"conversion not foldable: {unparse(node)[:60]}")
+                try:
+                    return int(v_, b_)
+                except ValueError:
+                    if env is not None and env.get("__strict__"):
+                        err_ = EvalError(f"`{unparse(node)[:60]}` raises ValueError")
+                        err_.raised = "ValueError"          # type: ignore[attr-defined]
+                        raise err_
+                    raise CannotFold(f"conversion fails: {unparse(node)[:60]}")
             if cname == "isinstance" and len(node.args) == 2 and not node.keywords:
                 types_ = {"int": int, "str": str, "bool": bool, "tuple": tuple, "list": list, "dict": dict, "bytes": bytes, "float": float}
                 t_ = node.args[1]
